@@ -5,7 +5,7 @@ import sys
 import time
 
 from . import core, engine, roles as roles_mod
-from . import search, nfa, da
+from . import search, nfa, da, ser
 
 TRUSTED = [
     "L1: for a power of two B, x < kB and c < B imply x ^ c < kB; next_power_of_two(n) >= n",
@@ -126,6 +126,10 @@ def run_C08(ctx, R):
     search.rule_trans(ctx, R)
 
 
+def run_C09(ctx, R):
+    ser.rule_ser(ctx, R)
+
+
 def run_C10(ctx, R):
     E = Env(ctx, R)
     nfa.rule_add(ctx, R, E.NR, rules={"VALID-DUP", "VALID-EMPTY", "VALID-NONEMPTY"})
@@ -192,6 +196,7 @@ PROPS = {
     "C06": (run_C06, False, "VAL-* CW-NB LAZY-END"),
     "C07": (run_C07, False, "SAFE-* B-*"),
     "C08": (run_C08, False, "CW-* DEC"),
+    "C09": (run_C09, False, "SER-*"),
     "C10": (run_C10, False, "VALID-*"),
     "C11": (run_C11, False, "KNOB-* DA-BASE"),
     "C12": (run_C12, False, "LAZY-*"),
